@@ -49,6 +49,8 @@ void World::mismatch(const std::string &oracle, const std::string &msg) {
         Outcome o; o.kind = Outcome::DISCARD; o.oracle = "mismatch-logged"; o.msg = msg; o.step = cur_step;
         throw Stop{o};
     }
+    if (cfg.structure_only_utils && !cur_judged && oracle != "structure" && (cur_op == "patch_apply" || cur_op == "patch_gen" || cur_op == "merge_gen" || cur_op == "merge_apply"))
+        discard("value oracle of another property's Utils call (" + oracle + "): " + msg);
     if (cfg.judge_values && step_is_judged()) violation(oracle, msg);
     discard("stage-setting step deviates from the model (" + oracle + "): " + msg);
 }
@@ -165,6 +167,7 @@ void World::check_all(const char *when) {
 }
 void World::exec(const Step &st, int index) {
     cur_step = index;
+    cur_op = st.op;
     cur_judged = cfg.judged ? cfg.judged(st.op) : true;
     if (index == force_judged_step) cur_judged = true;
     failed_cleanly = false;
